@@ -7,6 +7,7 @@ import (
 	"fmt"
 	"math/rand"
 	"sort"
+	"strings"
 
 	"google.golang.org/protobuf/reflect/protoreflect"
 
@@ -103,6 +104,23 @@ func malformedCodecShapes(c *chk.Ctx) {
 		zero[ci] = base64.StdEncoding.EncodeToString(nil)
 	}
 	ev1 := runDrv(c, bin, w.Root, ops)
+	hasRules := map[int]bool{}
+	for ci, mc := range cases {
+		var walk func(ms []*abs.Message)
+		walk = func(ms []*abs.Message) {
+			for _, m := range ms {
+				for _, f := range m.Fields {
+					if !f.Rules.IsZero() {
+						hasRules[ci] = true
+					}
+				}
+				walk(m.Nested)
+			}
+		}
+		for _, f := range mc.ex.Schema.Files {
+			walk(f.Messages)
+		}
+	}
 	// phase 2: the mutants
 	per := 10
 	if c.Thorough() {
@@ -114,6 +132,7 @@ func malformedCodecShapes(c *chk.Ctx) {
 		valid []byte
 		body  []byte
 		how   string
+		cls   string // malformed: no decoder may accept it | lenient: accepted or refused, but answered
 	}
 	var muts []*mutant
 	var ops2 []drv.Op
@@ -132,9 +151,25 @@ func malformedCodecShapes(c *chk.Ctx) {
 					rnd.Shuffle(len(ms), func(i, j int) { ms[i], ms[j] = ms[j], ms[i] })
 					ms = ms[:per]
 				}
-				for _, m := range ms {
+				// (where the schema carries validation rules a decodable document may be refused for a rule
+				// instead: those answers are C10's / C19's business, the doubtful class is left out there)
+				var us []mutBody
+				if !hasRules[ci] {
+					us = doubtful(valid)
+				}
+				if per > 0 && len(us) > per {
+					rnd.Shuffle(len(us), func(i, j int) { us[i], us[j] = us[j], us[i] })
+					us = us[:per]
+				}
+				for i := range ms {
+					ms[i].cls = "malformed"
+				}
+				for i := range us {
+					us[i].cls = "lenient"
+				}
+				for _, m := range append(ms, us...) {
 					id := len(muts)
-					muts = append(muts, &mutant{ci: ci, valid: valid, body: m.body, how: m.how})
+					muts = append(muts, &mutant{ci: ci, valid: valid, body: m.body, how: m.how, cls: m.cls})
 					ops2 = append(ops2, drv.Op{Op: "raw", Case: id, Call: 1, Pkg: mc.pkg, Verb: "POST", URL: "/api/do",
 						Headers: [][2]string{{"Content-Type", "application/json"}}, BodyB64: base64.StdEncoding.EncodeToString(m.body),
 						Handler: drv.HandlerCfg{Kind: "ok", RespType: mc.top, RespB64: zero[ci]}})
@@ -145,7 +180,7 @@ func malformedCodecShapes(c *chk.Ctx) {
 	ev2 := runDrv(c, bin, w.Root, ops2)
 	segs := make([][]string, len(muts))
 	for id := range muts {
-		lines := []string{jsonLine(map[string]any{"event": "Req", "case": id, "req": wire.BareRequest("malformed")})}
+		lines := []string{jsonLine(map[string]any{"event": "Req", "case": id, "req": wire.BareRequest(muts[id].cls)})}
 		evs := ev2[fmt.Sprintf("%d/1", id)]
 		sort.SliceStable(evs, func(i, j int) bool { return evs[i]["seq"].(float64) < evs[j]["seq"].(float64) })
 		if len(evs) == 0 {
@@ -179,7 +214,7 @@ func malformedCodecShapes(c *chk.Ctx) {
 	for _, m := range muts {
 		shapes[fmt.Sprint(cases[m.ci].ex.Fv)] = true
 	}
-	c.Infof("custom decoders: %d undecodable bodies over %d message shapes: %d accepted by Trace_Wire, %d rejected (%d TLC runs)", len(muts), len(shapes), len(acc), len(rej), runs)
+	c.Infof("custom decoders: %d undecodable / doubtful bodies over %d message shapes: %d accepted by Trace_Wire, %d rejected (%d TLC runs)", len(muts), len(shapes), len(acc), len(rej), runs)
 	c.Set("codec_shape_bodies", len(muts))
 	c.Set("codec_shapes", len(shapes))
 	c.AddInt("traces_validated_against_impl", int64(len(acc)))
@@ -203,6 +238,7 @@ func malformedCodecShapes(c *chk.Ctx) {
 type mutBody struct {
 	body []byte
 	how  string
+	cls  string
 }
 
 // wrongType returns a JSON value of a type that no field whose contract form is v can take.
@@ -277,5 +313,75 @@ func undecodable(valid []byte) []mutBody {
 			out = append(out, mutBody{body: append([]byte{}, valid[:cut]...), how: fmt.Sprintf("truncated at %d", cut)})
 		}
 	}
+	return out
+}
+
+// doubtful lists documents derived from a decodable one whose members keep their JSON type but get
+// another content: a short or empty string where a date, a number, an enum name or base64 text may be
+// expected, a number far out of every range, a null element in a list.  Whether a decoder accepts
+// such a document depends on the field; what C11 demands either way is an ANSWER (a dispatch of a
+// decoded request or a well-formed 400) - body class "lenient" of SebufWire.
+func doubtful(valid []byte) []mutBody {
+	var out []mutBody
+	dec := json.NewDecoder(bytes.NewReader(valid))
+	dec.UseNumber()
+	var doc any
+	if err := dec.Decode(&doc); err != nil {
+		return nil
+	}
+	emit := func(how string) {
+		b, err := json.Marshal(doc)
+		if err == nil && !bytes.Equal(b, valid) {
+			out = append(out, mutBody{body: b, how: how})
+		}
+	}
+	variants := func(v any) []any {
+		switch v.(type) {
+		case string:
+			return []any{"", "x", "2024", "-", strings.Repeat("9", 40)}
+		case json.Number:
+			return []any{json.Number("1e400"), json.Number("-1"), json.Number("0.5"), json.Number("99999999999999999999999")}
+		case []any:
+			return []any{[]any{nil}, append(append([]any{}, v.([]any)...), nil)}
+		}
+		return nil
+	}
+	var walk func(v any, path string, depth int)
+	walk = func(v any, path string, depth int) {
+		switch t := v.(type) {
+		case map[string]any:
+			keys := make([]string, 0, len(t))
+			for k := range t {
+				keys = append(keys, k)
+			}
+			sort.Strings(keys)
+			for _, k := range keys {
+				old := t[k]
+				for _, nv := range variants(old) {
+					t[k] = nv
+					emit(fmt.Sprintf("%s.%s: content %v", path, k, firstN(fmt.Sprint(nv), 20)))
+				}
+				t[k] = old
+				if depth < 3 {
+					walk(old, path+"."+k, depth+1)
+				}
+			}
+		case []any:
+			if len(t) == 0 {
+				return
+			}
+			i := len(t) - 1
+			old := t[i]
+			for _, nv := range variants(old) {
+				t[i] = nv
+				emit(fmt.Sprintf("%s[%d]: content %v", path, i, firstN(fmt.Sprint(nv), 20)))
+			}
+			t[i] = old
+			if depth < 3 {
+				walk(old, fmt.Sprintf("%s[%d]", path, i), depth+1)
+			}
+		}
+	}
+	walk(doc, "$", 1)
 	return out
 }
